@@ -16,23 +16,55 @@ is not an expression) or `N` (the constant None).
 tokens: `( ) , / * ** : = -> ... n<id> d<k> @<ann>`. -/
 namespace Signature
 
-def parseAnnChars : Nat → List Char → Option AnnE
+/-- leading decimal digits -/
+def takeNat (cs : List Char) : Option (Nat × List Char) :=
+  let ds := cs.takeWhile Char.isDigit
+  if ds.isEmpty then none else (String.ofList ds).toNat?.map fun n => (n, cs.drop ds.length)
+
+/-- prefix code: `a<k>` atom, `L` the name Literal, `N` None, `s<ann>` string, `b<k>` string that is not an
+expression, `A<n><ann>` attribute `<ann>.<name n>` (0 = Literal), `S<v><slice>`, `T<a><b>`, `O<a><b>`. -/
+def parseAnnChars : Nat → List Char → Option (AnnE × List Char)
   | 0, _ => none
   | fuel+1, cs =>
     match cs with
-    | 's' :: r => (parseAnnChars fuel r).map .str
-    | ['N'] => some .noneLit
-    | 'a' :: r => (String.ofList r).toNat?.map .atom
-    | 'b' :: r => (String.ofList r).toNat?.map .badStr
+    | 'a' :: r => (takeNat r).map fun (n, r') => (.atom n, r')
+    | 'b' :: r => (takeNat r).map fun (n, r') => (.badStr n, r')
+    | 'L' :: r => some (.literalName, r)
+    | 'N' :: r => some (.noneLit, r)
+    | 's' :: r => (parseAnnChars fuel r).map fun (e, r') => (.str e, r')
+    | 'A' :: r => do
+      let (n, r1) ← takeNat r
+      let (v, r2) ← parseAnnChars fuel r1
+      some (.attr v n, r2)
+    | 'S' :: r => do
+      let (v, r1) ← parseAnnChars fuel r
+      let (sl, r2) ← parseAnnChars fuel r1
+      some (.sub v sl, r2)
+    | 'T' :: r => do
+      let (a, r1) ← parseAnnChars fuel r
+      let (b, r2) ← parseAnnChars fuel r1
+      some (.tup a b, r2)
+    | 'O' :: r => do
+      let (a, r1) ← parseAnnChars fuel r
+      let (b, r2) ← parseAnnChars fuel r1
+      some (.bor a b, r2)
     | _ => none
 
-def parseAnn (s : String) : Option AnnE := parseAnnChars (s.length + 1) s.toList
+def parseAnn (s : String) : Option AnnE :=
+  match parseAnnChars (s.length + 1) s.toList with
+  | some (e, []) => some e
+  | _ => none
 
 def showAnn : AnnE → String
   | .atom a => "a" ++ toString a
+  | .literalName => "L"
   | .noneLit => "N"
   | .str e => "s" ++ showAnn e
   | .badStr a => "b" ++ toString a
+  | .attr v n => "A" ++ toString n ++ showAnn v
+  | .sub v sl => "S" ++ showAnn v ++ showAnn sl
+  | .tup a b => "T" ++ showAnn a ++ showAnn b
+  | .bor a b => "O" ++ showAnn a ++ showAnn b
 
 def parseArg (s : String) : Option Arg :=
   match s.splitOn ":" with
@@ -139,6 +171,34 @@ def parseDefs : Nat → List String → Option (List Def)
       some ({ name := i, isOverload := o, args := a } :: ds)
   | _, _ => none
 
+def parseParent : String → Option ParentKind
+  | "m" => some .module | "c" => some .cls | "f" => some .func | _ => none
+
+/-- `-` (not a dotted name) or `<o|x>:<comp>/<comp>/…` with every component `u:`-encoded -/
+def parseDeco (s : String) : Option Deco :=
+  if s == "-" then some { dotted := none, resolvesToOverload := false }
+  else
+    match s.splitOn ":" with
+    | flag :: rest =>
+      let body := ":".intercalate rest
+      match (body.splitOn "/").mapM Proto.decodeStr with
+      | some (first :: more) =>
+        match flag with
+        | "o" => some { dotted := some (first, more), resolvesToOverload := true }
+        | "x" => some { dotted := some (first, more), resolvesToOverload := false }
+        | _ => none
+      | _ => none
+    | _ => none
+
+def showOutcome : DefOutcome → String
+  | .skippedInner => "inner"
+  | .property n => "property " ++ Proto.encodeStr n
+  | .function n k o =>
+    "function " ++ Proto.encodeStr n ++ " " ++
+      (match k with | .plain => "plain" | .staticMethod => "static" | .classMethod => "class") ++ " " ++
+      (if o then "o" else "d") ++ " shown=" ++
+      (match shownName n with | some sn => Proto.encodeStr sn | none => "ValueError")
+
 def handle (args : List String) : String :=
   match args with
   | "sig" :: fields =>
@@ -178,6 +238,20 @@ def handle (args : List String) : String :=
         | .error e => showErr e
       | none => "bad-op"
     | none => "bad-op"
+  | ["unstring", a] =>
+    match parseAnn a with
+    | some e =>
+      showAnn e.unstring ++ (if e.unstringE.isNone then " SyntaxError" else " clean")
+    | none => "bad-op"
+  | "decos" :: parent :: name :: decos =>
+    match parseParent parent, Proto.decodeStr name, decos.mapM parseDeco with
+    | some p, some n, some ds => showOutcome (handleDef p n ds)
+    | _, _, _ => "bad-op"
+  | ["fsig", how] =>
+    match how with
+    | "none" => showTokens (formatSignatureX none false)
+    | "raises" => showTokens (formatSignatureX (some { params := [], ret := none }) true)
+    | _ => "bad-op"
   | _ => "bad-op"
 
 end Signature
